@@ -11,16 +11,17 @@ package plugin
 //@ macro lifetimeOK(d) = 0 <= d && d <= ndpInfinity
 
 //@ funcfield plugin.Prefix.TimeNow() (t)
-//@   assigns ghost.clockRead
+//@   assigns ghost.clockRead, ghost.now
 //@   ensures T1: ghost.clockRead == t && timeSane(t)
 //@ funcfield plugin.Route.TimeNow() (t)
-//@   assigns ghost.clockRead
+//@   assigns ghost.clockRead, ghost.now
 //@   ensures T1: ghost.clockRead == t && timeSane(t)
 
 //@ func (*Prefix).lifetimes
-//@   requires P1: p.Deprecated ==> p.Epoch != timeZero && timeSane(p.Epoch) && p.TimeNow != nil
+//@   requires P1: p.Deprecated ==> p.Epoch != timeZero && timeSane(p.Epoch)
+//@   at call time.Now() (tn): ghost.clockRead = tn
 //@   requires P2: lifetimeOK(p.ValidLifetime) && lifetimeOK(p.PreferredLifetime)
-//@   assigns ghost.clockRead
+//@   assigns ghost.clockRead, ghost.now
 //@   ensures E1 [C16,C01]: !p.Deprecated ==> valid == p.ValidLifetime && pref == p.PreferredLifetime
 //@   ensures E2 [C16,C01]: p.Deprecated ==> valid == remaining(p.Epoch, p.ValidLifetime, ghost.clockRead) && pref == remaining(p.Epoch, p.PreferredLifetime, ghost.clockRead)
 //@   ensures E3 [C16,C03]: 0 <= valid && 0 <= pref && (!p.Deprecated || ghost.clockRead >= p.Epoch ==> valid <= p.ValidLifetime && pref <= p.PreferredLifetime)
@@ -29,9 +30,10 @@ package plugin
 //@   opt safety [C16,C17]
 
 //@ func (*Route).lifetime
-//@   requires P1: r.Deprecated ==> r.Epoch != timeZero && timeSane(r.Epoch) && r.TimeNow != nil
+//@   requires P1: r.Deprecated ==> r.Epoch != timeZero && timeSane(r.Epoch)
+//@   at call time.Now() (tn): ghost.clockRead = tn
 //@   requires P2: lifetimeOK(r.Lifetime)
-//@   assigns ghost.clockRead
+//@   assigns ghost.clockRead, ghost.now
 //@   ensures E1 [C16,C01]: !r.Deprecated ==> result == r.Lifetime
 //@   ensures E2 [C16,C01]: r.Deprecated ==> result == remaining(r.Epoch, r.Lifetime, ghost.clockRead)
 //@   ensures E3 [C16,C03]: 0 <= result && (!r.Deprecated || ghost.clockRead >= r.Epoch ==> result <= r.Lifetime)
@@ -53,16 +55,27 @@ package plugin
 //@ macro raHeaderEq(x, y) = x.CurrentHopLimit == y.CurrentHopLimit && x.ManagedConfiguration == y.ManagedConfiguration && x.OtherConfiguration == y.OtherConfiguration && x.MobileIPv6HomeAgent == y.MobileIPv6HomeAgent && x.RouterSelectionPreference == y.RouterSelectionPreference && x.NeighborDiscoveryProxy == y.NeighborDiscoveryProxy && x.RouterLifetime == y.RouterLifetime && x.ReachableTime == y.ReachableTime && x.RetransmitTimer == y.RetransmitTimer
 
 // Type invariants of configured plugins (established by the parser, C02/C03).
-//@ macro prefixOK(p) = p != nil && lifetimeOK(p.ValidLifetime) && lifetimeOK(p.PreferredLifetime) && 0 <= pfxBits(p.Prefix) && (p.Deprecated ==> p.Epoch != timeZero && timeSane(p.Epoch) && p.TimeNow != nil) && (p.Auto ==> p.Addrs != nil)
-//@ macro routeOK(r) = r != nil && lifetimeOK(r.Lifetime) && 0 <= pfxBits(r.Prefix) && (r.Deprecated ==> r.Epoch != timeZero && timeSane(r.Epoch) && r.TimeNow != nil) && (r.Auto ==> r.Routes != nil)
-//@ macro rdnssOK(r) = r != nil && lifetimeOK(r.Lifetime) && (r.Auto ==> r.Addrs != nil)
+// Configuration-level invariants (what the parser establishes) ...
+//@ macro prefixCfgOK(p) = p != nil && lifetimeOK(p.ValidLifetime) && lifetimeOK(p.PreferredLifetime) && 0 <= pfxBits(p.Prefix) && (p.Deprecated ==> p.Epoch != timeZero && timeSane(p.Epoch))
+//@ macro routeCfgOK(r) = r != nil && lifetimeOK(r.Lifetime) && 0 <= pfxBits(r.Prefix) && (r.Deprecated ==> r.Epoch != timeZero && timeSane(r.Epoch))
+//@ macro rdnssCfgOK(r) = r != nil && lifetimeOK(r.Lifetime)
 //@ macro dnsslOK(d) = d != nil && lifetimeOK(d.Lifetime)
-//@ macro pluginOK(s) = pluginRank(dyn(s)) >= 1 && s.val > 0 && (isType(s, "*plugin.Prefix") ==> prefixOK(as(s, "*plugin.Prefix"))) && (isType(s, "*plugin.Route") ==> routeOK(as(s, "*plugin.Route"))) && (isType(s, "*plugin.RDNSS") ==> rdnssOK(as(s, "*plugin.RDNSS"))) && (isType(s, "*plugin.DNSSL") ==> dnsslOK(as(s, "*plugin.DNSSL"))) && (isType(s, "*plugin.CaptivePortal") ==> as(s, "*plugin.CaptivePortal").Portal != nil) && (isType(s, "*plugin.PREF64") ==> as(s, "*plugin.PREF64").Inner != nil) && (isType(s, "*plugin.MTU") ==> 0 <= star(as(s, "*plugin.MTU")) && star(as(s, "*plugin.MTU")) <= 4294967295)
+// ... and what Prepare adds once the interface is up (C17: a scrape or debug
+// request may arrive before that).
+//@ macro prefixPrepared(p) = (p.Deprecated ==> p.TimeNow != nil) && (p.Auto ==> p.Addrs != nil)
+//@ macro routePrepared(r) = (r.Deprecated ==> r.TimeNow != nil) && (r.Auto ==> r.Routes != nil)
+//@ macro rdnssPrepared(r) = r.Auto ==> r.Addrs != nil
+//@ macro prefixOK(p) = prefixCfgOK(p)
+//@ macro routeOK(r) = routeCfgOK(r)
+//@ macro rdnssOK(r) = rdnssCfgOK(r)
+//@ macro pluginCfgOK(s) = pluginRank(dyn(s)) >= 1 && s.val > 0 && (isType(s, "*plugin.Prefix") ==> prefixCfgOK(as(s, "*plugin.Prefix"))) && (isType(s, "*plugin.Route") ==> routeCfgOK(as(s, "*plugin.Route"))) && (isType(s, "*plugin.RDNSS") ==> rdnssCfgOK(as(s, "*plugin.RDNSS"))) && (isType(s, "*plugin.DNSSL") ==> dnsslOK(as(s, "*plugin.DNSSL"))) && (isType(s, "*plugin.CaptivePortal") ==> as(s, "*plugin.CaptivePortal").Portal != nil) && (isType(s, "*plugin.PREF64") ==> as(s, "*plugin.PREF64").Inner != nil) && (isType(s, "*plugin.MTU") ==> 0 <= star(as(s, "*plugin.MTU")) && star(as(s, "*plugin.MTU")) <= 4294967295)
+//@ macro pluginPrepared(s) = (isType(s, "*plugin.Prefix") ==> prefixPrepared(as(s, "*plugin.Prefix"))) && (isType(s, "*plugin.Route") ==> routePrepared(as(s, "*plugin.Route"))) && (isType(s, "*plugin.RDNSS") ==> rdnssPrepared(as(s, "*plugin.RDNSS")))
+//@ macro pluginOK(s) = pluginCfgOK(s)
 
 // What config.Interface.RouterAdvertisement may assume of any plugin.
 //@ iface plugin.Plugin.Apply(self, ra) (err)
 //@   requires P1: ra != nil && pluginOK(self)
-//@   assigns heap(ndp.RouterAdvertisement) at ra, new mem(ndp.Option), new heap(ndp.PrefixInformation), new heap(ndp.RouteInformation), new heap(ndp.RecursiveDNSServer), new heap(ndp.DNSSearchList), new heap(ndp.MTU), new heap(ndp.LinkLayerAddress), new mem(netip.Addr), new mem(netip.Prefix), new mem(system.IP), new mem(system.Route), ghost.clockRead, ghost.lastAddrs
+//@   assigns heap(ndp.RouterAdvertisement) at ra, new mem(ndp.Option), new heap(ndp.PrefixInformation), new heap(ndp.RouteInformation), new heap(ndp.RecursiveDNSServer), new heap(ndp.DNSSearchList), new heap(ndp.MTU), new heap(ndp.LinkLayerAddress), new mem(netip.Addr), new mem(netip.Prefix), new mem(system.IP), new mem(system.Route), ghost.clockRead, ghost.now, ghost.lastAddrs
 //@   ensures A1: raHeaderEq(star(ra), old(star(ra)))
 //@   ensures A2: len(ra.Options) >= old(len(ra.Options)) && forall(j, 0, old(len(ra.Options)), ra.Options[j] == old(ra.Options[j]))
 //@   ensures A3: forall(j, old(len(ra.Options)), len(ra.Options), optRank(dyn(ra.Options[j])) == pluginRank(dyn(self)) && ra.Options[j].val > 0)
@@ -141,7 +154,7 @@ package plugin
 
 //@ func (*Prefix).apply
 //@   requires P1: prefixOK(p) && ra != nil && forall(k, 0, len(prefixes), 0 <= pfxBits(prefixes[k]))
-//@   assigns heap(ndp.RouterAdvertisement) at ra, new mem(ndp.Option), new heap(ndp.PrefixInformation), ghost.clockRead
+//@   assigns heap(ndp.RouterAdvertisement) at ra, new mem(ndp.Option), new heap(ndp.PrefixInformation), ghost.clockRead, ghost.now
 //@   loop 1 invariant I1 [C01]: len(opts) == rangeindex + 1 && 0 <= rangeindex + 1 && rangeindex + 1 <= len(prefixes)
 //@   loop 1 invariant I2 [C01]: forall(k, 0, len(opts), isPI(opts[k]) && opts[k].val < brk && piMatches(as(opts[k], "*ndp.PrefixInformation"), p, prefixes[k], valid, pref))
 //@   loop 1 invariant I3 [C01]: star(ra) == old(star(ra)) && fresh(opts)
@@ -163,7 +176,7 @@ package plugin
 
 //@ func (*Prefix).current
 //@   ghost local addrsErr Iface
-//@   requires P1: p != nil && p.Addrs != nil && 0 <= pfxBits(p.Prefix)
+//@   requires P1: p != nil && 0 <= pfxBits(p.Prefix)
 //@   assigns new mem(netip.Prefix), new mem(system.IP), ghost.lastAddrs
 //@   at call Addrs() (as, aerr): ghost.lastAddrs = as ; ghost.addrsErr = aerr
 //@   loop 1 invariant J0 [C13]: 0 <= rangeindex + 1 && rangeindex + 1 <= len(addrs) && seen != nil && ghost.lastAddrs == addrs && forall(j, 0, len(addrs), ipOK(addrs[j])) && (prefixes == nil || fresh(prefixes))
@@ -174,7 +187,7 @@ package plugin
 //@   loop 1 invariant J5 [C13]: forall(k1, 0, len(prefixes), forall(k2, k1 + 1, len(prefixes), prefixes[k1] != prefixes[k2]))
 //@   loop 1 invariant J6 [C13]: forall(k, 0, len(prefixes), pfxValid(prefixes[k]) && pfxBits(prefixes[k]) == pfxBits(p.Prefix))
 //@   ensures E0 [C01,C13]: result1 == nil ==> forall(k, 0, len(result0), 0 <= pfxBits(result0[k]))
-//@   ensures E1 [C13]: (ghost.addrsErr != nil) == (result1 != nil) && (result1 != nil ==> result0 == nil)
+//@   ensures E1 [C13]: (ghost.addrsErr != nil || p.Addrs == nil) == (result1 != nil) && (result1 != nil ==> result0 == nil)
 //@   ensures E2 [C13]: result1 == nil ==> forall(q, "Pfx", member(result0, q) <==> exists(j, 0, len(ghost.lastAddrs), elig13(typed(ghost.lastAddrs, "[]system.IP")[j], pfxBits(p.Prefix)) && pfxMasked(typed(ghost.lastAddrs, "[]system.IP")[j].Address) == q))
 //@   ensures E3 [C13]: result1 == nil ==> forall(a, 0, len(result0), forall(b, a + 1, len(result0), addrCompare(pfxAddr(result0[a]), pfxAddr(result0[b])) < 0))
 //@   opt safety [C13,C17]
@@ -184,7 +197,7 @@ package plugin
 //@   opt refines iface:plugin.Plugin.Apply
 //@   opt refinetags [C01,C04]
 //@   requires P1: prefixOK(p) && ra != nil
-//@   assigns heap(ndp.RouterAdvertisement) at ra, new mem(ndp.Option), new heap(ndp.PrefixInformation), new mem(netip.Prefix), new mem(system.IP), ghost.clockRead, ghost.lastAddrs
+//@   assigns heap(ndp.RouterAdvertisement) at ra, new mem(ndp.Option), new heap(ndp.PrefixInformation), new mem(netip.Prefix), new mem(system.IP), ghost.clockRead, ghost.now, ghost.lastAddrs
 //@   ensures E1 [C01]: !p.Auto ==> result == nil && len(ra.Options) == old(len(ra.Options)) + 1 && isPI(ra.Options[old(len(ra.Options))]) && piMatches(as(ra.Options[old(len(ra.Options))], "*ndp.PrefixInformation"), p, p.Prefix, prefixLifetimeV(p, ghost.clockRead), prefixLifetimeP(p, ghost.clockRead))
 //@   opt safety [C01,C17]
 //@   opt frame [C01]
@@ -204,7 +217,7 @@ package plugin
 
 //@ func (*Route).current
 //@   ghost local routesErr Iface
-//@   requires P1: r != nil && r.Routes != nil
+//@   requires P1: r != nil
 //@   assigns new mem(netip.Prefix), new mem(system.Route), ghost.lastRoutes
 //@   at call Routes() (rs, rerr): ghost.lastRoutes = rs ; ghost.routesErr = rerr
 //@   loop 1 invariant K0 [C15]: 0 <= rangeindex1 + 1 && rangeindex1 + 1 <= len(routes) && seen != nil && ghost.lastRoutes == routes && routeFactsOK(routes) && (prefixes == nil || fresh(prefixes))
@@ -216,7 +229,7 @@ package plugin
 //@   loop 2 invariant L0 [C15]: 0 <= rangeindex2 + 1 && rangeindex2 + 1 <= len(routes) && rt == routes[rangeindex1 + 1] && elig15(rt) && rangeindex1 + 1 < len(routes)
 //@   loop 2 invariant L1 [C15]: forall(m, 0, rangeindex2 + 1, !(pfxBits(routes[m].Prefix) < pfxBits(rt.Prefix) && pfxContains(routes[m].Prefix, pfxAddr(rt.Prefix))))
 //@   ensures E0 [C01,C15]: result1 == nil ==> forall(k, 0, len(result0), 0 <= pfxBits(result0[k]))
-//@   ensures E1 [C15]: (ghost.routesErr != nil) == (result1 != nil) && (result1 != nil ==> result0 == nil)
+//@   ensures E1 [C15]: (ghost.routesErr != nil || r.Routes == nil) == (result1 != nil) && (result1 != nil ==> result0 == nil)
 //@   ensures E2 [C15]: result1 == nil ==> forall(q, "Pfx", member(result0, q) <==> exists(j, 0, len(ghost.lastRoutes), typed(ghost.lastRoutes, "[]system.Route")[j].Prefix == q && elig15(typed(ghost.lastRoutes, "[]system.Route")[j]) && !covered15(q, typed(ghost.lastRoutes, "[]system.Route"))))
 //@   ensures E3 [C15]: result1 == nil ==> forall(a, 0, len(result0), forall(b, a + 1, len(result0), addrCompare(pfxAddr(result0[a]), pfxAddr(result0[b])) < 0))
 //@   opt safety [C15,C17]
@@ -249,7 +262,7 @@ package plugin
 
 //@ func (*RDNSS).current
 //@   ghost local addrsErr Iface
-//@   requires P1: r != nil && r.Addrs != nil
+//@   requires P1: r != nil
 //@   assigns new mem(system.IP), ghost.lastAddrs
 //@   at call Addrs() (as, aerr): ghost.lastAddrs = as ; ghost.addrsErr = aerr
 //@   loop 1 invariant F0 [C14]: 0 <= rangeindex + 1 && rangeindex + 1 <= len(addrs) && ghost.lastAddrs == addrs && forall(j, 0, len(addrs), ipOK(addrs[j]))
@@ -257,7 +270,7 @@ package plugin
 //@   loop 1 invariant F2 [C14]: pfxValid(best.Address) ==> elig14(best) && exists(j, 0, rangeindex + 1, addrs[j] == best) && forall(j, 0, rangeindex + 1, elig14(addrs[j]) ==> !keyLess14(addrs[j], best))
 //@   ensures E1 [C14]: ghost.addrsErr != nil ==> result1 != nil
 //@   ensures E2 [C14]: result1 == nil ==> best14(result0, typed(ghost.lastAddrs, "[]system.IP"))
-//@   ensures E3 [C14]: result1 != nil && ghost.addrsErr == nil ==> forall(j, 0, len(ghost.lastAddrs), !elig14(typed(ghost.lastAddrs, "[]system.IP")[j]))
+//@   ensures E3 [C14]: result1 != nil && ghost.addrsErr == nil && r.Addrs != nil ==> forall(j, 0, len(ghost.lastAddrs), !elig14(typed(ghost.lastAddrs, "[]system.IP")[j]))
 //@   ensures E4 [C14,C01]: result1 == nil ==> addrIsValid(result0)
 //@   opt safety [C14,C17]
 
@@ -287,7 +300,7 @@ package plugin
 
 //@ func (*Route).apply
 //@   requires P1: routeOK(r) && ra != nil && forall(k, 0, len(routes), 0 <= pfxBits(routes[k]))
-//@   assigns heap(ndp.RouterAdvertisement) at ra, new mem(ndp.Option), new heap(ndp.RouteInformation), ghost.clockRead
+//@   assigns heap(ndp.RouterAdvertisement) at ra, new mem(ndp.Option), new heap(ndp.RouteInformation), ghost.clockRead, ghost.now
 //@   loop 1 invariant I1 [C01]: 0 <= rangeindex + 1 && rangeindex + 1 <= len(routes) && len(ra.Options) == old(len(ra.Options)) + rangeindex + 1 && raHeaderEq(star(ra), old(star(ra)))
 //@   loop 1 invariant I2 [C01]: forall(j, 0, old(len(ra.Options)), ra.Options[j] == old(ra.Options[j]))
 //@   loop 1 invariant I3 [C01]: forall(j, old(len(ra.Options)), len(ra.Options), isRI(ra.Options[j]) && ra.Options[j].val < brk && riMatches(as(ra.Options[j], "*ndp.RouteInformation"), r, routes[j - old(len(ra.Options))], lt))
@@ -302,7 +315,7 @@ package plugin
 //@   opt refines iface:plugin.Plugin.Apply
 //@   opt refinetags [C01,C04]
 //@   requires P1: routeOK(r) && ra != nil
-//@   assigns heap(ndp.RouterAdvertisement) at ra, new mem(ndp.Option), new heap(ndp.RouteInformation), new mem(netip.Prefix), new mem(system.Route), ghost.clockRead, ghost.lastRoutes
+//@   assigns heap(ndp.RouterAdvertisement) at ra, new mem(ndp.Option), new heap(ndp.RouteInformation), new mem(netip.Prefix), new mem(system.Route), ghost.clockRead, ghost.now, ghost.lastRoutes
 //@   ensures E1 [C01]: !r.Auto ==> result == nil && len(ra.Options) == old(len(ra.Options)) + 1 && isRI(ra.Options[old(len(ra.Options))]) && riMatches(as(ra.Options[old(len(ra.Options))], "*ndp.RouteInformation"), r, r.Prefix, routeLifetime(r, ghost.clockRead))
 //@   opt safety [C01,C17]
 //@   opt frame [C01]
